@@ -13,6 +13,7 @@ import (
 	"runtime"
 	"runtime/debug"
 	"sort"
+	"strings"
 	"sync"
 	"testing"
 	"testing/synctest"
@@ -177,7 +178,14 @@ func (c SimCfg) toSim(record bool, est int) verifsim.Config {
 
 var theT *testing.T
 
+// bubbleTainted: a simulation of this process ended with goroutines still alive (a library
+// that keeps workers across calls). They live in a dead synctest bubble; package-level state
+// may refer to its channels, and touching those from another bubble is a fatal runtime error.
+// No further simulation may start in this process: the worker retires and is respawned.
+var bubbleTainted bool
+
 type SimOut struct {
+	Skipped   bool // not executed: the process is tainted (see bubbleTainted)
 	Rep       *verifsim.Report
 	Completed bool   // the root task returned
 	EndPanic  string // end-of-bubble panic (leaked blocked goroutines after a deadlock)
@@ -190,9 +198,16 @@ var recordChoices bool
 
 func Simulate[T any](c SimCfg, est int, body func() T) (res T, out SimOut) {
 	record := recordChoices
+	if bubbleTainted {
+		out.Skipped = true
+		return
+	}
 	defer func() {
 		if r := recover(); r != nil {
 			out.EndPanic = fmt.Sprint(r)
+		}
+		if (out.Rep != nil && out.Rep.Leaked > 0) || strings.Contains(out.EndPanic, "blocked goroutines remain") {
+			bubbleTainted = true
 		}
 	}()
 	synctest.Test(theT, func(t *testing.T) {
@@ -231,6 +246,7 @@ type Result struct {
 	SiteSeq    map[string]uint64 `json:"-"`
 	ChoicesPer [][]int32         `json:"-"` // recorded schedule of each simulation of the run, in order
 	SimNs      int64             `json:"-"`
+	Leaked     int               `json:"-"` // goroutines still alive (blocked) after the call under test returned
 }
 
 func (r *Result) fault(k string) {
@@ -253,6 +269,12 @@ func violation(class, format string, a ...interface{}) Result {
 // absorb copies the scheduler report into the result and turns scheduler-level
 // findings (deadlock, task panic, step cap) into verdicts.
 func (r *Result) absorb(out SimOut) {
+	if out.Skipped {
+		if r.Infra == "" && r.Class == "" {
+			r.Infra = "SKIP: an earlier simulation of this process left goroutines behind"
+		}
+		return
+	}
 	rep := out.Rep
 	if rep == nil {
 		if r.Infra == "" {
@@ -295,6 +317,15 @@ func (r *Result) absorb(out SimOut) {
 		return
 	}
 	if r.Class != "" {
+		return
+	}
+	if rep.Leaked > 0 {
+		r.Leaked += rep.Leaked
+	}
+	if len(rep.Panics) > 0 && (strings.Contains(rep.Panics[0].Value, "synctest") || strings.Contains(rep.Panics[0].Value, "bubble")) {
+		// a goroutine that outlived an earlier simulation (or was started outside of one) touched
+		// a channel of this bubble: a limit of the simulator, not a verdict about the library
+		r.Infra = "simulator limitation (goroutine outside the synctest bubble): " + rep.Panics[0].Value
 		return
 	}
 	if len(rep.Panics) > 0 {
@@ -572,6 +603,7 @@ type Job struct {
 	Runs     int             `json:"runs"`     // total runs over all shards (explore)
 	BudgetS  float64         `json:"budget_s"` // wall-clock cap for this worker
 	OnlyRun  int             `json:"only_run"` // explore: execute just this run index (-1 = all)
+	FirstRun int             `json:"first_run"` // explore: skip runs below this index (continuation of a retired worker)
 	Plan     json.RawMessage `json:"plan"`     // replay / shrink
 	Out      string          `json:"out"`
 	Known    []string        `json:"known"`   // known-finding keys (class strings) not to count
@@ -606,6 +638,8 @@ type Summary struct {
 	Infra       []string          `json:"infra"`
 	ProbesHit   []int             `json:"probes_hit"`
 	TimedOut    bool              `json:"timed_out"`
+	Retired     bool              `json:"retired"` // stopped early because a run left goroutines behind
+	RetiredAt   int               `json:"retired_at"` // first run index the continuation has to execute
 	FirstRun    int               `json:"first_run"`
 	LastRun     int               `json:"last_run"`
 }
